@@ -1,1 +1,616 @@
-// placeholder
+//! Framework harnesses (child module of maybenot::framework, cfg(kani) only): shared environment
+//! models, machine families over typed buffers, the reference semantics and the contracts.
+//! Levels (DESIGN.md 2.5): L0 kernels, L1 = one `transition`, L2 = `trigger_events` over the
+//! transition contract.
+use super::*;
+use crate::action::{Action, Timer};
+use crate::counter::{Counter, Operation};
+use crate::dist::{Dist, DistType};
+use crate::state::verif_kani::{state_from_parts, vec_over};
+use crate::state::{State, Trans};
+use crate::constants::EVENT_NUM;
+
+pub(crate) const DAY_US: u64 = 86_400_000_000;
+pub(crate) const EV_LIMIT: usize = 8;
+pub(crate) const EV_ZERO: usize = 9;
+pub(crate) const EV_SIGNAL: usize = 12;
+
+// ------------------------------------------------------------------------------------------
+// environment: virtual clock (any value in any order), random tape (any word at any position)
+// ------------------------------------------------------------------------------------------
+#[derive(Clone, Copy, Debug, PartialEq, Eq)]
+pub struct VT(pub u64);
+#[derive(Clone, Copy, Debug, PartialEq, Eq, PartialOrd)]
+pub struct VD(pub u64);
+impl core::ops::AddAssign for VD {
+    fn add_assign(&mut self, o: VD) {
+        self.0 = self.0.saturating_add(o.0);
+    }
+}
+impl crate::time::Duration for VD {
+    fn zero() -> Self {
+        VD(0)
+    }
+    fn from_micros(m: u64) -> Self {
+        VD(m)
+    }
+    fn is_zero(&self) -> bool {
+        self.0 == 0
+    }
+    fn div_duration_f64(self, rhs: Self) -> f64 {
+        self.0 as f64 / rhs.0 as f64
+    }
+}
+impl crate::time::Instant for VT {
+    type Duration = VD;
+    fn saturating_duration_since(&self, e: Self) -> VD {
+        VD(self.0.saturating_sub(e.0))
+    }
+}
+
+pub(crate) const T32: usize = 4;
+pub(crate) const T64: usize = 16;
+/// Random tape: every word is symbolic; the cursors meter the work and make two runs comparable
+/// draw for draw. Running off the tape is an explicit (replayable) assertion.
+#[derive(Clone, Copy)]
+pub(crate) struct Tape {
+    pub w32: [u32; T32],
+    pub w64: [u64; T64],
+    pub c32: usize,
+    pub c64: usize,
+}
+impl Tape {
+    pub(crate) fn any() -> Self {
+        Tape { w32: kani::any(), w64: kani::any(), c32: 0, c64: 0 }
+    }
+}
+impl RngCore for Tape {
+    fn next_u32(&mut self) -> u32 {
+        assert!(self.c32 < T32, "C01: work bound exceeded: more state draws in one machine step than the tape holds");
+        let v = self.w32[self.c32];
+        self.c32 += 1;
+        v
+    }
+    fn next_u64(&mut self) -> u64 {
+        assert!(self.c64 < T64, "C01: work bound exceeded: more distribution draws in one machine step than the tape holds");
+        let v = self.w64[self.c64];
+        self.c64 += 1;
+        v
+    }
+    fn fill_bytes(&mut self, _d: &mut [u8]) {
+        panic!("C05: fill_bytes is never used by the framework");
+    }
+    fn try_fill_bytes(&mut self, _d: &mut [u8]) -> Result<(), rand_core::Error> {
+        panic!("C05: try_fill_bytes is never used by the framework");
+    }
+}
+
+// ------------------------------------------------------------------------------------------
+// leaf contracts (proved for the real functions by the L0 kernels in dist_kani.rs, assumed at L1)
+// ------------------------------------------------------------------------------------------
+pub(crate) fn sample_timeout_c<R: RngCore>(a: &Action, rng: &mut R) -> u64 {
+    match a {
+        Action::SendPadding { .. } | Action::BlockOutgoing { .. } => {
+            let v = rng.next_u64();
+            kani::assume(v <= DAY_US);
+            v
+        }
+        _ => 0,
+    }
+}
+pub(crate) fn sample_duration_c<R: RngCore>(a: &Action, rng: &mut R) -> u64 {
+    match a {
+        Action::BlockOutgoing { .. } | Action::UpdateTimer { .. } => {
+            let v = rng.next_u64();
+            kani::assume(v <= DAY_US);
+            v
+        }
+        _ => 0,
+    }
+}
+pub(crate) fn sample_limit_c<R: RngCore>(a: &Action, rng: &mut R) -> u64 {
+    let has = match a {
+        Action::SendPadding { limit, .. } | Action::BlockOutgoing { limit, .. } | Action::UpdateTimer { limit, .. } => limit.is_some(),
+        _ => false,
+    };
+    if has {
+        rng.next_u64()
+    } else {
+        u64::MAX
+    }
+}
+pub(crate) fn sample_value_c<R: RngCore>(c: &Counter, rng: &mut R) -> u64 {
+    match c.dist {
+        None => 1,
+        Some(_) => rng.next_u64(),
+    }
+}
+/// Limit contract used at L1: during one machine step the accounting does not change (frame
+/// condition, asserted at L1), so "below the limits" factors into `state_limit > 0` and one
+/// boolean per action kind that is constant for the step. The L0 kernels k_below_* prove that the
+/// real predicates have exactly this form with the statement's budget/fraction rules as the constant.
+pub(crate) static mut G_PAD_OK: bool = false;
+pub(crate) static mut G_BLOCK_OK: [bool; 2] = [false, false];
+pub(crate) fn limits_c(action: Option<Action>, limit: u64) -> bool {
+    match action {
+        None => false,
+        Some(Action::Cancel { .. }) => true,
+        Some(Action::UpdateTimer { .. }) => limit > 0,
+        Some(Action::SendPadding { .. }) => limit > 0 && unsafe { G_PAD_OK },
+        Some(Action::BlockOutgoing { replace, .. }) => limit > 0 && unsafe { G_BLOCK_OK[replace as usize] },
+    }
+}
+pub(crate) fn below_action_limits_c<M, R, T>(_this: &Framework<M, R, T>, runtime: &MachineRuntime<T>, machine: &Machine) -> bool
+where
+    M: AsRef<[Machine]>,
+    R: RngCore,
+    T: crate::time::Instant,
+{
+    limits_c(machine.states[runtime.current_state].action, runtime.state_limit)
+}
+// native-replay hooks (cfg(verif_replay_stub) only, see engine/scratch.py and export.rs)
+use crate::verif::{leaf_contracts_on, mode, set_mode, MODE_L1A, MODE_L1B, MODE_L2};
+pub(crate) fn replay_limits_hook<M, R, T>(this: &Framework<M, R, T>, runtime: &MachineRuntime<T>, machine: &Machine) -> Option<bool>
+where
+    M: AsRef<[Machine]>,
+    R: RngCore,
+    T: crate::time::Instant,
+{
+    if leaf_contracts_on() { Some(below_action_limits_c(this, runtime, machine)) } else { None }
+}
+pub(crate) fn replay_timeout_hook<R: RngCore>(a: &Action, rng: &mut R) -> Option<u64> {
+    if leaf_contracts_on() { Some(sample_timeout_c(a, rng)) } else { None }
+}
+pub(crate) fn replay_duration_hook<R: RngCore>(a: &Action, rng: &mut R) -> Option<u64> {
+    if leaf_contracts_on() { Some(sample_duration_c(a, rng)) } else { None }
+}
+pub(crate) fn replay_limit_hook<R: RngCore>(a: &Action, rng: &mut R) -> Option<u64> {
+    if leaf_contracts_on() { Some(sample_limit_c(a, rng)) } else { None }
+}
+pub(crate) fn replay_value_hook<R: RngCore>(c: &Counter, rng: &mut R) -> Option<u64> {
+    if leaf_contracts_on() { Some(sample_value_c(c, rng)) } else { None }
+}
+pub(crate) fn replay_transition_hook<M, R, T>(this: &mut Framework<M, R, T>, mi: usize, event: Event) -> Option<StateChange>
+where
+    M: AsRef<[Machine]>,
+    R: RngCore,
+    T: crate::time::Instant,
+{
+    match mode() {
+        MODE_L1B => Some(fam21::transition_ref(this, mi, event)),
+        MODE_L2 => Some(l2::transition_tc(this, mi, event)),
+        crate::verif::MODE_ANY_ACTION => Some(crate::verif::transition_any_action(this, mi, event)),
+        _ => None,
+    }
+}
+pub(crate) fn replay_update_counter_hook<M, R, T>(this: &mut Framework<M, R, T>, mi: usize) -> Option<(bool, bool)>
+where
+    M: AsRef<[Machine]>,
+    R: RngCore,
+    T: crate::time::Instant,
+{
+    if mode() == MODE_L1A { Some(fam21::update_counter_ref(this, mi)) } else { None }
+}
+
+/// see export.rs: any well-formed action (or none) is written into the slot of machine `mi`
+pub fn transition_any_action_impl<M, R, T>(this: &mut Framework<M, R, T>, mi: usize, _event: Event) -> StateChange
+where
+    M: AsRef<[Machine]>,
+    R: RngCore,
+    T: crate::time::Instant,
+{
+    assert!(mi < this.actions.len(), "C01: a machine step is only ever taken for a machine that exists");
+    let to: u64 = kani::any();
+    let du: u64 = kani::any();
+    kani::assume(to <= DAY_US && du <= DAY_US);
+    let m = MachineId::from_raw(mi);
+    let k: u8 = kani::any();
+    kani::assume(k < 5);
+    this.actions[mi] = match k {
+        0 => None,
+        1 => Some(TriggerAction::Cancel { machine: m, timer: any_timer() }),
+        2 => Some(TriggerAction::SendPadding { timeout: T::Duration::from_micros(to), bypass: kani::any(), replace: kani::any(), machine: m }),
+        3 => Some(TriggerAction::BlockOutgoing {
+            timeout: T::Duration::from_micros(to),
+            duration: T::Duration::from_micros(du),
+            bypass: kani::any(),
+            replace: kani::any(),
+            machine: m,
+        }),
+        _ => Some(TriggerAction::UpdateTimer { duration: T::Duration::from_micros(du), replace: kani::any(), machine: m }),
+    };
+    StateChange::Unchanged
+}
+/// unchecked constructor for the harnesses of the dependent crates (Framework::new validates the
+/// machines through hashbrown / SipHash, which is out of reach as mere set-up; C12 decides it)
+pub fn new_unchecked_impl<M, R, T>(machines: M, t0: T, rng: R) -> Framework<M, R, T>
+where
+    M: AsRef<[Machine]>,
+    R: RngCore,
+    T: crate::time::Instant,
+{
+    let n = machines.as_ref().len();
+    let mut runtime = Vec::with_capacity(n);
+    let mut i = 0;
+    while i < n {
+        runtime.push(MachineRuntime {
+            current_state: 0,
+            state_limit: u64::MAX,
+            padding_sent: 0,
+            normal_sent: 0,
+            blocking_duration: T::Duration::zero(),
+            machine_start: t0,
+            allowed_blocked_microsec: T::Duration::from_micros(machines.as_ref()[i].allowed_blocked_microsec),
+            counter_a: 0,
+            counter_b: 0,
+            counter_zeroed_once: (false, false),
+        });
+        i += 1;
+    }
+    Framework {
+        current_time: t0,
+        rng,
+        actions: vec![None; n],
+        machines,
+        runtime,
+        max_padding_frac: 0.0,
+        normal_sent_packets: 0,
+        padding_sent_packets: 0,
+        max_blocking_frac: 0.0,
+        blocking_duration: T::Duration::zero(),
+        blocking_started: t0,
+        blocking_active: false,
+        signal_pending: None,
+        framework_start: t0,
+    }
+}
+
+// ------------------------------------------------------------------------------------------
+// small generators shared by all levels
+// ------------------------------------------------------------------------------------------
+pub(crate) fn dummy_dist() -> Dist {
+    // parameters are irrelevant at L1/L2: the samplers are abstracted by the leaf contracts
+    Dist { dist: DistType::Uniform { low: 0.0, high: 0.0 }, start: 0.0, max: 0.0 }
+}
+pub(crate) fn opt_dist(has: bool) -> Option<Dist> {
+    if has {
+        Some(dummy_dist())
+    } else {
+        None
+    }
+}
+fn any_opt_dist() -> Option<Dist> {
+    opt_dist(kani::any())
+}
+pub(crate) fn timer_of(t: u8) -> Timer {
+    match t {
+        0 => Timer::Action,
+        1 => Timer::Internal,
+        _ => Timer::All,
+    }
+}
+pub(crate) fn timer_ix(t: Timer) -> u8 {
+    match t {
+        Timer::Action => 0,
+        Timer::Internal => 1,
+        Timer::All => 2,
+    }
+}
+pub(crate) fn any_timer() -> Timer {
+    timer_of(kani::any::<u8>() % 3)
+}
+pub(crate) fn real_frac(x: f64) -> bool {
+    x >= 0.0 && x <= 1.0
+}
+
+// ------------------------------------------------------------------------------------------
+// accounting seen (read only) by one machine step
+// ------------------------------------------------------------------------------------------
+#[derive(Clone, Copy)]
+pub(crate) struct Acct {
+    pub now: u64,
+    pub start: u64,
+    pub f_normal: u64,
+    pub f_padding: u64,
+    pub f_block_dur: u64,
+    pub f_block_started: u64,
+    pub f_block_active: bool,
+    pub f_pad_frac: f64,
+    pub f_block_frac: f64,
+    pub m_padding: u64,
+}
+pub(crate) fn any_acct() -> Acct {
+    let a = Acct {
+        now: kani::any(),
+        start: kani::any(),
+        f_normal: kani::any(),
+        f_padding: kani::any(),
+        f_block_dur: kani::any(),
+        f_block_started: kani::any(),
+        f_block_active: kani::any(),
+        f_pad_frac: kani::any(),
+        f_block_frac: kani::any(),
+        m_padding: kani::any(),
+    };
+    // Inv: fractions validated; packet counters below 2^63 (DESIGN.md 2.4); a machine's paddings are part of the total
+    kani::assume(real_frac(a.f_pad_frac) && real_frac(a.f_block_frac));
+    kani::assume(a.f_normal < (1 << 63) && a.f_padding < (1 << 63) && a.m_padding <= a.f_padding);
+    a
+}
+
+#[derive(Clone, Copy, PartialEq, Eq)]
+pub(crate) enum RSig {
+    None,
+    All,
+    AllExcept(usize),
+}
+pub(crate) fn sig_of(s: &Option<SignalTarget>) -> RSig {
+    match s {
+        None => RSig::None,
+        Some(SignalTarget::All) => RSig::All,
+        Some(SignalTarget::AllExcept(x)) => RSig::AllExcept(*x),
+    }
+}
+pub(crate) fn sig_to(s: RSig) -> Option<SignalTarget> {
+    match s {
+        RSig::None => None,
+        RSig::All => Some(SignalTarget::All),
+        RSig::AllExcept(x) => Some(SignalTarget::AllExcept(x)),
+    }
+}
+pub(crate) fn any_sig(m: usize) -> RSig {
+    match kani::any::<u8>() % 3 {
+        0 => RSig::None,
+        1 => RSig::All,
+        _ => {
+            let x: usize = kani::any();
+            kani::assume(x < m);
+            RSig::AllExcept(x)
+        }
+    }
+}
+/// the documented signalling rule: the first signaller is excluded, the same signaller stays
+/// excluded however many times it signals, a second distinct signaller turns it into "all"
+pub(crate) fn sig_rule(s: RSig, mi: usize) -> RSig {
+    match s {
+        RSig::None => RSig::AllExcept(mi),
+        RSig::AllExcept(x) if x == mi => RSig::AllExcept(mi),
+        _ => RSig::All,
+    }
+}
+
+// ---- the statement-level limit predicates (C02, C03, C07(d)) ----
+pub(crate) fn frac_below(part: f64, total: f64, frac: f64) -> bool {
+    // "if set": a fraction of 0 means no limit; a fraction over zero counts as below
+    frac == 0.0 || !(part / total >= frac)
+}
+pub(crate) fn ref_padding_ok(m_padding: u64, m_normal: u64, allowed: u64, m_frac: f64, f_padding: u64, f_normal: u64, f_frac: f64, limit: u64) -> bool {
+    if limit == 0 {
+        return false;
+    }
+    if m_padding < allowed {
+        return true;
+    }
+    let own_total = m_normal + m_padding;
+    let own_below = own_total == 0 || frac_below(m_padding as f64, own_total as f64, m_frac);
+    let total = f_normal + f_padding;
+    let global_below = total == 0 || frac_below(f_padding as f64, total as f64, f_frac);
+    own_below && global_below
+}
+pub(crate) fn ref_blocking_ok(ac: &Acct, allowed_us: u64, m_frac: f64, limit: u64, replace: bool) -> bool {
+    if limit == 0 {
+        return false;
+    }
+    if replace && ac.f_block_active {
+        return true;
+    }
+    let ongoing = if ac.f_block_active { ac.now.saturating_sub(ac.f_block_started) } else { 0 };
+    // every machine is blocked exactly as long as the framework (Inv)
+    let blocked = ac.f_block_dur.saturating_add(ongoing);
+    if blocked < allowed_us {
+        return true;
+    }
+    let since_start = ac.now.saturating_sub(ac.start);
+    frac_below(blocked as f64, since_start as f64, m_frac) && frac_below(blocked as f64, since_start as f64, ac.f_block_frac)
+}
+
+// ------------------------------------------------------------------------------------------
+// L0: the limit predicates against the statement (C02, C03, C07(d))
+// ------------------------------------------------------------------------------------------
+fn one_state_machine(action: Option<Action>, sarr: &mut [State; 1], allowed_p: u64, pf: f64, allowed_b: u64, bf: f64) -> Machine {
+    const NT: Option<Vec<Trans>> = None;
+    unsafe { core::ptr::write(&mut sarr[0], state_from_parts(action, (None, None), [NT; EVENT_NUM])) };
+    Machine {
+        allowed_padding_packets: allowed_p,
+        max_padding_frac: pf,
+        allowed_blocked_microsec: allowed_b,
+        max_blocking_frac: bf,
+        states: unsafe { vec_over(sarr) },
+    }
+}
+pub(crate) type FW<'a> = Framework<&'a [Machine], Tape, VT>;
+pub(crate) fn framework_over<'a, const M: usize>(
+    machines: &'a [Machine; M],
+    rts: &mut [MachineRuntime<VT>; M],
+    slots: &mut [Option<TriggerAction<VT>>; M],
+    ac: &Acct,
+    tape: Tape,
+) -> FW<'a> {
+    Framework {
+        current_time: VT(ac.now),
+        rng: tape,
+        actions: unsafe { vec_over(slots) },
+        machines: &machines[..],
+        runtime: unsafe { vec_over(rts) },
+        max_padding_frac: ac.f_pad_frac,
+        normal_sent_packets: ac.f_normal,
+        padding_sent_packets: ac.f_padding,
+        max_blocking_frac: ac.f_block_frac,
+        blocking_duration: VD(ac.f_block_dur),
+        blocking_started: VT(ac.f_block_started),
+        blocking_active: ac.f_block_active,
+        signal_pending: None,
+        framework_start: VT(ac.start),
+    }
+}
+/// the "zeroed once in this call" flags of machine `mi` (per statement: per counter of that machine)
+pub(crate) fn czo_get(f: &FW<'_>, mi: usize) -> (bool, bool) {
+    f.runtime[mi].counter_zeroed_once
+}
+pub(crate) fn czo_set(f: &mut FW<'_>, mi: usize, v: (bool, bool)) {
+    f.runtime[mi].counter_zeroed_once = v;
+}
+/// set the flags of two machines: machine 0 zeroed `a`, machine 1 zeroed `b` earlier in this call
+pub(crate) fn czo_set_pair(f: &mut FW<'_>, a: (bool, bool), b: (bool, bool)) {
+    f.runtime[0].counter_zeroed_once = a;
+    f.runtime[1].counter_zeroed_once = b;
+}
+pub(crate) fn runtime_of(ac: &Acct, m: &Machine, cs: usize, limit: u64, ca: u64, cb: u64) -> MachineRuntime<VT> {
+    MachineRuntime {
+        current_state: cs,
+        state_limit: limit,
+        padding_sent: ac.m_padding,
+        normal_sent: ac.f_normal,
+        blocking_duration: VD(ac.f_block_dur),
+        machine_start: VT(ac.start),
+        allowed_blocked_microsec: VD(m.allowed_blocked_microsec),
+        counter_a: ca,
+        counter_b: cb,
+        counter_zeroed_once: (false, false),
+    }
+}
+const NO_STATE: Option<State> = None;
+
+#[kani::proof]
+#[kani::unwind(3)]
+fn k_below_padding() {
+    let ac = any_acct();
+    let allowed: u64 = kani::any();
+    let pf: f64 = kani::any();
+    kani::assume(real_frac(pf));
+    let limit: u64 = kani::any();
+    let a = Action::SendPadding { bypass: kani::any(), replace: kani::any(), timeout: dummy_dist(), limit: any_opt_dist() };
+    const NT: Option<Vec<Trans>> = None;
+    let mut sarr = [state_from_parts(None, (None, None), [NT; EVENT_NUM])];
+    let machines = [one_state_machine(Some(a), &mut sarr, allowed, pf, kani::any(), 0.0)];
+    let mut rts = [runtime_of(&ac, &machines[0], 0, limit, 0, 0)];
+    let mut slots = [None];
+    let f = framework_over(&machines, &mut rts, &mut slots, &ac, Tape::any());
+    let got = f.below_limit_padding(&f.runtime[0], &machines[0]);
+    let want = ref_padding_ok(ac.m_padding, ac.f_normal, allowed, pf, ac.f_padding, ac.f_normal, ac.f_pad_frac, limit);
+    if got {
+        assert!(limit > 0, "C07(d): a padding action is allowed although the state limit is zero");
+        assert!(want, "C02: padding allowed although neither the machine budget nor both fraction limits permit it");
+    } else {
+        assert!(!want, "C05: padding denied although the documented limits permit it");
+    }
+    assert!(f.below_action_limits(&f.runtime[0], &machines[0]) == got, "C02: the padding predicate is the one applied to padding actions");
+    kani::cover!(got && ac.m_padding >= allowed && pf > 0.0 && ac.f_pad_frac > 0.0, "allowed below both fractions");
+    kani::cover!(!got && limit > 0 && ac.m_padding >= allowed, "denied by a fraction");
+    kani::cover!(got && ac.m_padding + ac.f_normal == 0, "fraction over zero packets counts as below");
+    core::mem::forget(f);
+    core::mem::forget(machines);
+    core::mem::forget(sarr);
+}
+
+/// experiment: only the machine's own fraction is set (one float division on each side)
+#[kani::proof]
+#[kani::unwind(3)]
+fn k_below_padding_own() {
+    let mut ac = any_acct();
+    ac.f_pad_frac = 0.0;
+    let allowed: u64 = kani::any();
+    let pf: f64 = kani::any();
+    kani::assume(real_frac(pf));
+    kani::assume(ac.m_padding >= allowed);
+    let limit: u64 = kani::any();
+    let a = Action::SendPadding { bypass: kani::any(), replace: kani::any(), timeout: dummy_dist(), limit: any_opt_dist() };
+    const NT: Option<Vec<Trans>> = None;
+    let mut sarr = [state_from_parts(None, (None, None), [NT; EVENT_NUM])];
+    let machines = [one_state_machine(Some(a), &mut sarr, allowed, pf, kani::any(), 0.0)];
+    let mut rts = [runtime_of(&ac, &machines[0], 0, limit, 0, 0)];
+    let mut slots = [None];
+    let f = framework_over(&machines, &mut rts, &mut slots, &ac, Tape::any());
+    let got = f.below_limit_padding(&f.runtime[0], &machines[0]);
+    let want = ref_padding_ok(ac.m_padding, ac.f_normal, allowed, pf, ac.f_padding, ac.f_normal, 0.0, limit);
+    assert!(got == want, "C02: own fraction");
+    core::mem::forget(f);
+    core::mem::forget(machines);
+    core::mem::forget(sarr);
+}
+
+#[kani::proof]
+#[kani::unwind(3)]
+fn k_below_blocking() {
+    let ac = any_acct();
+    let allowed: u64 = kani::any();
+    let bf: f64 = kani::any();
+    kani::assume(real_frac(bf));
+    let limit: u64 = kani::any();
+    let replace: bool = kani::any();
+    let a = Action::BlockOutgoing { bypass: kani::any(), replace, timeout: dummy_dist(), duration: dummy_dist(), limit: any_opt_dist() };
+    const NT: Option<Vec<Trans>> = None;
+    let mut sarr = [state_from_parts(None, (None, None), [NT; EVENT_NUM])];
+    let machines = [one_state_machine(Some(a), &mut sarr, kani::any(), 0.0, allowed, bf)];
+    let mut rts = [runtime_of(&ac, &machines[0], 0, limit, 0, 0)];
+    let mut slots = [None];
+    let f = framework_over(&machines, &mut rts, &mut slots, &ac, Tape::any());
+    let got = f.below_limit_blocking(&f.runtime[0], &machines[0]);
+    let want = ref_blocking_ok(&ac, allowed, bf, limit, replace);
+    if got {
+        assert!(limit > 0, "C07(d): a blocking action is allowed although the state limit is zero");
+        assert!(want, "C03: blocking allowed although it neither replaces active blocking nor stays within the budget or both fraction limits");
+    } else {
+        assert!(!want, "C05: blocking denied although the documented limits permit it");
+    }
+    assert!(f.below_action_limits(&f.runtime[0], &machines[0]) == got, "C03: the blocking predicate is the one applied to blocking actions");
+    kani::cover!(got && replace && ac.f_block_active, "replace while active");
+    kani::cover!(got && !ac.f_block_active && ac.f_block_dur >= allowed && bf > 0.0 && ac.f_block_frac > 0.0, "allowed below both fractions");
+    kani::cover!(!got && limit > 0, "denied by a limit");
+    kani::cover!(got && ac.now < ac.start, "clock ran backwards");
+    core::mem::forget(f);
+    core::mem::forget(machines);
+    core::mem::forget(sarr);
+}
+
+/// timer / cancel / no action: the remaining arms of the limit dispatch
+#[kani::proof]
+#[kani::unwind(3)]
+fn k_below_other() {
+    let ac = any_acct();
+    let limit: u64 = kani::any();
+    let a = match kani::any::<u8>() % 3 {
+        0 => None,
+        1 => Some(Action::Cancel { timer: any_timer() }),
+        _ => Some(Action::UpdateTimer { replace: kani::any(), duration: dummy_dist(), limit: any_opt_dist() }),
+    };
+    const NT: Option<Vec<Trans>> = None;
+    let mut sarr = [state_from_parts(None, (None, None), [NT; EVENT_NUM])];
+    let machines = [one_state_machine(a, &mut sarr, kani::any(), 0.0, kani::any(), 0.0)];
+    let mut rts = [runtime_of(&ac, &machines[0], 0, limit, 0, 0)];
+    let mut slots = [None];
+    let f = framework_over(&machines, &mut rts, &mut slots, &ac, Tape::any());
+    let got = f.below_action_limits(&f.runtime[0], &machines[0]);
+    match a {
+        None => assert!(!got, "C04: a state without action never schedules one"),
+        Some(Action::Cancel { .. }) => assert!(got, "C05: cancel actions are not limited"),
+        _ => assert!(got == (limit > 0), "C07(d): a timer action is allowed exactly while the state limit is positive"),
+    }
+    kani::cover!(got, "allowed");
+    core::mem::forget(f);
+    core::mem::forget(machines);
+    core::mem::forget(sarr);
+}
+
+
+// ------------------------------------------------------------------------------------------
+// L1 (one machine step, compositional over the CounterZero recursion) and L2 (whole calls)
+// ------------------------------------------------------------------------------------------
+pub(crate) mod l2 {
+    include!("l2.rs");
+}
+pub(crate) mod fam21 {
+    pub(crate) const S: usize = 2;
+    pub(crate) const K: usize = 1;
+    include!("l1_family.rs");
+}
